@@ -147,6 +147,10 @@ def stepU (op : String) (args : List String) : String :=
     (match parsePair? p with
      | some (h, l) => bigFloatStr (U128.asBigInt ⟨h, l⟩) (U128.asBigFloat ⟨h, l⟩)
      | none => "bad-op")
+  | "bigfloat64", [p] =>
+    (match parsePair? p with
+     | some (h, l) => bigFloatStr (U128.asBigInt ⟨h, l⟩) (bigFloatSetInt64 (U128.asBigInt ⟨h, l⟩))
+     | none => "bad-op")
   | "frombigw", [sg, m] =>
     (match parseMag? sg m with
      | some (neg, n) => bothW fun W => let ws := natToWords W n; wordsStr ws ++ " " ++ uStr (U128.fromBigIntW W neg ws)
@@ -214,6 +218,10 @@ def stepI (op : String) (args : List String) : String :=
   | "asbigfloat", [p] =>
     (match parsePair? p with
      | some (h, l) => bigFloatStr (I128.asBigInt ⟨h, l⟩) (I128.asBigFloat ⟨h, l⟩)
+     | none => "bad-op")
+  | "bigfloat64", [p] =>
+    (match parsePair? p with
+     | some (h, l) => bigFloatStr (I128.asBigInt ⟨h, l⟩) (bigFloatSetInt64 (I128.asBigInt ⟨h, l⟩))
      | none => "bad-op")
   | "frombigw", [sg, m] =>
     (match parseMag? sg m with
